@@ -339,7 +339,7 @@ MANIFEST = dict(
     note=('Exact comparison on the dyadic lattice only (multiples of 1/8, tempos 1/2,1,2,4; thirds for meters 3/6 to the '
           'nearest lattice point). NRT mode only; RT wake-up paths, etempo, non-dyadic tempos are not decided. '
           'Trusted: TLC, IEEE doubles being exact on the lattice, the recording driver.'),
-    technique='TLA+ law spec checked by TLC + batch trace validation of exhaustive/random histories on the real TempoClock (NRT)',
+    technique='TLA+ law spec checked by TLC + batch trace validation of exhaustive/random histories on the real TempoClock (NRT) + RT tempo-changing routine programs under a controlled scheduler followed through the LogicalTime machine',
     design_ref='DESIGN.md section 3 / C12',
     engine='TempoMath',
 )
